@@ -121,6 +121,12 @@ func (w *World) main() {
 			continue
 		}
 		k++
+		switch p.spec.Partial {
+		case "v4":
+			v6 = ""
+		case "v6":
+			v4 = ""
+		}
 		w.createPod(p)
 		w.setPodStatus(p, corev1.PodRunning, v4, v6)
 		p.sbLive = true
@@ -257,13 +263,17 @@ func (w *World) cniAdd(p *podState, sandbox string) {
 	uid := p.uid
 	req := &rpc.AllocIPRequest{K8SPodName: p.spec.Name, K8SPodNamespace: ns, K8SPodInfraContainerId: sandbox, Netns: "/proc/1/ns/net", IfName: "eth0"}
 	w.run.S.Log("cni", "ADD invoke %s cid=%s", p.spec.Name, req.K8SPodInfraContainerId)
-	w.cniInFlight[uid]++
+	w.addInFlight[uid]++
 	reply, err := w.svc.AllocIP(ctx, req)
-	w.cniInFlight[uid]--
+	w.addInFlight[uid]--
 	if err != nil || reply == nil || !reply.Success {
 		// a failed ADD is rolled back by the agent itself, which is the teardown of a sandbox that
 		// never came up (the runtime follows with a DEL for it in any case)
 		w.addFailed[uid] = true
+	} else if w.suspectReport[uid] && !w.delProcessed[uid] && !w.addFailed[uid] && w.cniInFlight[uid] == 0 && p.exists && p.uid == uid {
+		// a teardown report seen while this ADD was in flight was given the benefit of the doubt
+		// (the ADD might have been failing); it succeeded, so nothing justified the report
+		w.run.Violate("C03", "report-safety", "teardown-reported-for-live-pod", "the node agent reported teardown for %s (uid %s) while its only CNI request was an ADD that then succeeded; no DEL for it was processed and the pod exists", ns+"/"+p.spec.Name, uid)
 	}
 	v4, v6 := "", ""
 	if reply != nil {
@@ -708,6 +718,33 @@ func (w *World) checkNodeStatus(cur *networkv1beta1.Node) {
 			}
 		}
 	}
+	// ---- C08: trimming the idle reserve stops at max. A write that newly marks idle addresses
+	// (or an idle interface) for deletion must leave at least max usable idle addresses of the
+	// family the pool is counted in - unless the pass also read the cloud, which may remove
+	// addresses on its own.
+	if w.cloud.fullReads == w.passStartFullReads {
+		main := "v4"
+		if !w.cfg.v4() {
+			main = "v6"
+		}
+		usable := func(r ipRec) bool {
+			return r.family == main && r.ip.PodID == "" && r.ip.Status == networkv1beta1.IPStatusValid && r.eni.Status == aliyunClient.ENIStatusInUse
+		}
+		trimmed, left := 0, 0
+		for _, ip := range sortedIPs(prev) {
+			if nr, ok := now[ip]; usable(prev[ip]) && ok && nr.ip.PodID == "" && !usable(nr) {
+				trimmed++
+			}
+		}
+		for _, r := range now {
+			if usable(r) {
+				left++
+			}
+		}
+		if trimmed > 0 && left < w.cfg.MaxPool {
+			w.run.Violate("C08", "band", "trim-below-max", "a status write marked %d idle %s addresses for deletion and leaves %d usable idle ones; max_pool is %d", trimmed, main, left, w.cfg.MaxPool)
+		}
+	}
 	// ---- C03: nothing bound is taken away before the pod is gone and its teardown reported
 	// (cloud drift is outside what C03 ranges over: when the cloud lost one of a pod's addresses,
 	// the record follows, and in dual stack the pod's other address goes with it)
@@ -866,6 +903,10 @@ func (w *World) checkRuntimeWrite() {
 			continue
 		}
 		if w.delProcessed[uid] || w.addFailed[uid] || w.cniInFlight[uid] > 0 {
+			continue
+		}
+		if w.addInFlight[uid] > 0 {
+			w.suspectReport[uid] = true // judged when the ADD returns
 			continue
 		}
 		name := strings.TrimPrefix(st.PodID, ns+"/")
